@@ -67,6 +67,7 @@ struct Frame {
 struct SimEndpoint {
 	ref::EndpointCfg cfg;
 	bool http = false;
+	bool cred_in_uri = false;
 	int net_ep = -1;
 	std::string uri, host; unsigned port = 0;
 	std::vector<SrvReq> pending, answered;
